@@ -40,6 +40,8 @@ def run(ctx):
     ctx.deadline = saved
     from .. import w_misc
     w_misc.drive_retrieval_clients(ctx, ctx.tier)
+    ctx.floor('C08.rel_modifier', 100)
+    w_misc.drive_modifiers(ctx, ctx.tier)
 
 
 def replay(ctx, rec):
